@@ -227,6 +227,9 @@ class Schema(dict, metaclass=LogicalMeta):
             # maybe some of the dependencies is no_output=True, but still accessible through attribute
             # check if any of those dependencies is not in __dict__, and directly return if found one
             for dep in field.dependencies:
+                if super().__contains__(dep):
+                    # this one is in the data, only the others need to be attributes
+                    continue
                 dep_field = self.__parser__.get_field(dep)
                 if not dep_field or dep_field.attname not in self.__dict__:
                     return
@@ -433,7 +436,12 @@ class Schema(dict, metaclass=LogicalMeta):
                 f"{self.__name__}: Attempt to delete required schema key: {repr(key)}"
             )
         args = () if unprovided(default) else (default,)
-        return super().pop(field.name, *args)
+        present = super().__contains__(field.name)
+        value = super().pop(field.name, *args)
+        if present and field.attname in self.__dict__:
+            # keep the attribute view in line with the keys
+            self.__dict__.pop(field.attname)
+        return value
 
     def update(self, __m=None, **kwargs):
         if self.__options__.immutable:
@@ -502,6 +510,9 @@ class Schema(dict, metaclass=LogicalMeta):
                 raise exc.DeleteError(
                     f"{self.__name__}: Attempt to delete required schema key: {repr(key)}"
                 )
+        for key, field in self.__parser__.fields.items():
+            if super().__contains__(field.name) and field.attname in self.__dict__:
+                self.__dict__.pop(field.attname)
         return super().clear()
 
 
